@@ -55,7 +55,7 @@ def plan(tier, seed):
 
 
 def mandatory(tier):
-    return [f"model/{m}" for m in MODELS] + [f"op/{o}" for o in OPS] + [f"kind/{k}" for k in X.KINDS] + [f"grid_/at_new_samples/{k}" for k in ("resize", "other_domain", "same_shape")] + ["first_read_is_inverse"]
+    return [f"model/{m}" for m in MODELS] + [f"op/{o}" for o in OPS] + [f"kind/{k}" for k in X.KINDS] + [f"grid_/at_new_samples/{k}" for k in ("resize", "other_domain", "same_shape")] + ["first_read_is_inverse", "image_transformer_reads_first"]
 
 
 class Subject:
@@ -220,6 +220,11 @@ def compare_fresh(ctx, subj, x, history_, info, what, inverse=None):
         elif what == "inverse":
             got = inverse(x)
             want = subj.fresh(invert=True)(x)
+        elif what == "warp":  # through an ImageTransformer built earlier on the same transform object
+            got = inverse["warp"](inverse["image"])
+            from deepali import spatial as S_
+
+            want = S_.ImageTransformer(subj.fresh())(inverse["image"])
         elif what == "inv_disp":  # the ready-made inverse read without going through its call hook
             got = t.inv.disp()
             want = subj.fresh(invert=True).disp()
@@ -250,6 +255,9 @@ def history(ctx, rng, info, subj, i):
     x = torch.tensor(rng.uniform(-0.8, 0.8, size=(1, 9, D)), dtype=torch.float32)
     hist = []
     inv = None
+    warper = None
+    from deepali import spatial as S
+
     max_len = 8 if ctx.tier == "quick" else 12
     n_ops = int(rng.integers(3, max_len + 1))
     prev = "build"
@@ -283,6 +291,7 @@ def history(ctx, rng, info, subj, i):
                 # an inverse created earlier keeps its own (old) grid: what it should compute after the forward
                 # transform was re-gridded is not defined by the property; it is no longer followed
                 inv = None
+                warper = None  # built for the old grid
             elif op == "condition_":
                 args = dict(scale=float(rng.uniform(0.3, 1.2)), shift=float(rng.uniform(-1, 1)))
                 desc.update(args)
@@ -340,6 +349,14 @@ def history(ctx, rng, info, subj, i):
         ctx.count(f"bigram/{prev}>{op}")
         prev = op
         with ctx.guard("call", key=f"exc/call_after/{op}", history=list(hist), **info):
+            if step % 2:
+                # the image transformer is the first reader every other step (it must trigger the update itself)
+                if warper is None:
+                    warper = {"warp": S.ImageTransformer(t), "image": torch.tensor(rng.uniform(size=(t.grid().shape if False else (1, 1) + tuple(t.grid().shape))), dtype=torch.float32)}
+                    for _ in range(2):
+                        warper["image"] = (warper["image"] + warper["image"].roll(1, -1) + warper["image"].roll(1, -2)) / 3
+                ctx.bucket("image_transformer_reads_first")
+                compare_fresh(ctx, subj, x, hist, info, "warp", inverse=warper)
             compare_fresh(ctx, subj, x, hist, info, "call")
             if inv is not None:
                 compare_fresh(ctx, subj, x, hist, info, "inverse", inverse=inv)
